@@ -181,7 +181,15 @@ func (d *dumper) dump(v reflect.Value, depth int) {
 		} else {
 			d.sb.WriteString("func")
 		}
-	case reflect.Chan, reflect.UnsafePointer:
+	case reflect.UnsafePointer:
+		// e.g. the word inside an atomic.Pointer: the address is all that can be observed; it is
+		// meaningful only when the same object is dumped twice (omitted in value-only dumps)
+		if d.noCap {
+			fmt.Fprintf(d.sb, "unsafe.Pointer(nil=%v)", v.Pointer() == 0)
+		} else {
+			fmt.Fprintf(d.sb, "unsafe.Pointer(%#x)", v.Pointer())
+		}
+	case reflect.Chan:
 		fmt.Fprintf(d.sb, "%s", v.Type())
 	default:
 		fmt.Fprintf(d.sb, "?%s", v.Kind())
